@@ -445,7 +445,10 @@ def gen_seq(rng, dname, nops, nkeys=3, paths=None, dump=True, short_ttl=True, lo
             if x < 0.5 or not held:
                 handles += 1
                 h = "%s-h%d" % (dname, handles)
-                ops.append({"op": "lock", "c": lc, "d": dname, "k": lk, "ms": rng.choice([0, 60000]), "dl": 20, "tok": h})
+                lop = {"op": "lock", "c": lc, "d": dname, "k": lk, "ms": rng.choice([0, 60000, 60500]), "dl": 20, "tok": h}
+                if lc.startswith("raw") and lop["ms"] and rng.random() < 0.5:
+                    lop["ex"] = 1           # DM.LOCK ... EX <seconds, fractional> instead of PX <ms>
+                ops.append(lop)
                 held.append((h, lk))
                 k = lk
             elif x < 0.75:
